@@ -1,0 +1,42 @@
+//go:build verif
+
+package patch
+
+// Contracts for prologue relocation (property C03), checked by /verif/bin/govc; comment-only.
+// x86asm.Decode is replaced by its assumed contract (C16): proofs hold for every instruction stream
+// satisfying it, a superset of what any compiler emits.
+
+//@ pure func ins_shape(ins *x86asm.Inst, block []byte, pos int) bool = ins != nil && 0 <= pos && pos < len(block) && x86asm.decoded_ok(*ins, len(block) - pos)
+//@   | && (x86asm.is_short_branch_opcode(block[pos]) ==> ins.Len == 2 && ins.PCRelOff == 1 && ins.PCRel == 1)
+//@   | && (ins.PCRelOff > 0 && ins.PCRel == 2 ==> block[pos] != 0)
+// displacement and block-relative target of the instruction as it stands in the original function
+//@ pure func ins_disp(ins *x86asm.Inst, block []byte, pos int) int = bytecode.sdisp(block, pos + ins.PCRelOff, ins.PCRel)
+//@ pure func ins_target(ins *x86asm.Inst, block []byte, pos int) int = pos + ins.Len + ins_disp(ins, block, pos)
+// an instruction must be re-encoded when it has a PC-relative operand whose target lies outside the copied block
+//@ pure func must_relocate(ins *x86asm.Inst, block []byte, pos int, blockSize int) bool = ins.PCRelOff > 0 && ins_disp(ins, block, pos) != 0
+//@   | && (ins_target(ins, block, pos) < 0 || ins_target(ins, block, pos) >= blockSize)
+// number of instruction bytes that follow the displacement field (immediates)
+//@ pure func ins_suffix(ins *x86asm.Inst) int = ins.Len - ins.PCRelOff - ins.PCRel
+
+//@ func fixIns
+//@   props C03
+//@   requires shape: ins_shape(ins, block, pos) && len(block) < 0x100000 && arr(block) != textref && 0 <= blockSize && blockSize < 0x100000
+//@   requires table: bytecode.opexpand_wf()
+//@   assume inside_block: pos + ins.Len <= blockSize
+//@   assume image_span: from < 0x7fffffff00000000 && trampoline < 0x7fffffff00000000 && -0x7fff0000 <= int(from) - int(trampoline) && int(from) - int(trampoline) <= 0x7fff0000
+//@     | && (ins.PCRelOff > 0 ==> bytecode.fits32(ins_disp(ins, block, pos)) && bytecode.fits32(ins_disp(ins, block, pos) + int(from) - int(trampoline)))
+//@   assigns block[pos + ins.PCRelOff : pos + ins.PCRelOff + ins.PCRel]
+//@   ensures no_pcrel_verbatim: ins.PCRelOff <= 0 ==> result == block[pos : pos + ins.Len]
+//@   ensures internal_target_verbatim: ins.PCRelOff > 0 && !must_relocate(ins, old_block(block), pos, blockSize) ==> result == block[pos : pos + ins.Len]
+//@     | && forall i int :: 0 <= i && i < ins.Len ==> block[pos + i] == old(block[pos + i])
+//@   ensures relocated_keeps_trailing_bytes: must_relocate(ins, old_block(block), pos, blockSize) ==> len(result) >= ins.Len
+//@     | && forall i int :: 0 <= i && i < ins_suffix(ins) ==> result[len(result) - ins_suffix(ins) + i] == old(block[pos + ins.PCRelOff + ins.PCRel + i])
+//@   ensures relocated_same_target: must_relocate(ins, old_block(block), pos, blockSize) ==>
+//@     | int(trampoline) + pos + len(result) + bytecode.sdisp(result, len(result) - ins_suffix(ins) - reloc_width(ins, len(result)), reloc_width(ins, len(result)))
+//@     | == int(from) + ins_target(ins, old_block(block), pos)
+//@   panics_only_if cannot_encode: ins.PCRelOff > 0 && (ins.PCRel == 1 || ins.PCRel == 2)
+
+// width of the displacement field after re-encoding: unchanged unless the instruction grew (rel8/rel16 -> rel32)
+//@ pure func reloc_width(ins *x86asm.Inst, newLen int) int = ite(newLen == ins.Len, ins.PCRel, 4)
+// old_block(b): the bytes of b at function entry (the block is modified in place by re-encoding)
+//@ pure func old_block(b []byte) []byte = b
